@@ -382,6 +382,7 @@ pub struct PortState {
     pub line: Line,
     pub timeout: Option<Duration>,
     pub fail: String, // "none" | "read_settings" | "set_baud_rate" | "write_settings" | "set_timeout"
+    pub fail_kind: usize, // which kind of error the refused call reports
     pub dev_log: Vec<Value>,
     pub rx: VecDeque<u8>,
     pub tx: Vec<u8>,
@@ -394,10 +395,22 @@ pub struct PortState {
 
 impl PortState {
     pub fn new(line: Line) -> Self {
-        PortState { line, timeout: None, fail: "none".into(), dev_log: vec![], rx: VecDeque::new(), tx: vec![], io_log: vec![], io_calls: 0, io_fail_at: None, t0: Instant::now(), read_latency: None }
+        PortState { line, timeout: None, fail: "none".into(), fail_kind: 0, dev_log: vec![], rx: VecDeque::new(), tx: vec![], io_log: vec![], io_calls: 0, io_fail_at: None, t0: Instant::now(), read_latency: None }
     }
     fn now(&self) -> u64 {
         self.t0.elapsed().as_micros() as u64
+    }
+}
+
+/// The device errors injected by the instrumented port, of several kinds (a retry on one kind must not hide a refusal).
+fn dev_error(kind: usize, what: &str) -> serial_core::Error {
+    match kind % 6 {
+        0 => serial_core::Error::new(serial_core::ErrorKind::NoDevice, what),
+        1 => serial_core::Error::new(serial_core::ErrorKind::InvalidInput, what),
+        2 => serial_core::Error::new(serial_core::ErrorKind::Io(io::ErrorKind::Interrupted), what),
+        3 => serial_core::Error::new(serial_core::ErrorKind::Io(io::ErrorKind::TimedOut), what),
+        4 => serial_core::Error::new(serial_core::ErrorKind::Io(io::ErrorKind::WouldBlock), what),
+        _ => serial_core::Error::new(serial_core::ErrorKind::Io(io::ErrorKind::Other), what),
     }
 }
 
@@ -440,7 +453,8 @@ impl SerialPortSettings for ISettings {
         let fail = self.st.borrow().fail == "set_baud_rate";
         self.st.borrow_mut().dev_log.push(json!({"e": "dev", "call": "set_baud_rate", "ok": !fail}));
         if fail {
-            return Err(serial_core::Error::new(serial_core::ErrorKind::InvalidInput, "injected: baud rate refused"));
+            let k = self.st.borrow().fail_kind;
+            return Err(dev_error(k, "injected: baud rate refused"));
         }
         self.line.baud = baud_rate;
         Ok(())
@@ -529,7 +543,8 @@ impl SerialDevice for IPort {
         let fail = self.st.borrow().fail == "read_settings";
         self.st.borrow_mut().dev_log.push(json!({"e": "dev", "call": "read_settings", "ok": !fail}));
         if fail {
-            return Err(serial_core::Error::new(serial_core::ErrorKind::NoDevice, "injected: cannot read settings"));
+            let k = self.st.borrow().fail_kind;
+            return Err(dev_error(k, "injected: cannot read settings"));
         }
         Ok(ISettings { line: self.st.borrow().line.clone(), st: self.st.clone() })
     }
@@ -537,7 +552,8 @@ impl SerialDevice for IPort {
         let fail = self.st.borrow().fail == "write_settings";
         self.st.borrow_mut().dev_log.push(json!({"e": "dev", "call": "write_settings", "ok": !fail}));
         if fail {
-            return Err(serial_core::Error::new(serial_core::ErrorKind::NoDevice, "injected: settings refused"));
+            let k = self.st.borrow().fail_kind;
+            return Err(dev_error(k, "injected: settings refused"));
         }
         self.st.borrow_mut().line = settings.line.clone();
         Ok(())
@@ -547,9 +563,10 @@ impl SerialDevice for IPort {
     }
     fn set_timeout(&mut self, timeout: Duration) -> serial_core::Result<()> {
         let fail = self.st.borrow().fail == "set_timeout";
-        self.st.borrow_mut().dev_log.push(json!({"e": "dev", "call": "set_timeout", "ok": !fail, "ms": timeout.as_millis() as u64}));
+        self.st.borrow_mut().dev_log.push(json!({"e": "dev", "call": "set_timeout", "ok": !fail, "value": format!("{}.{:09}", timeout.as_secs(), timeout.subsec_nanos())}));
         if fail {
-            return Err(serial_core::Error::new(serial_core::ErrorKind::InvalidInput, "injected: timeout refused"));
+            let k = self.st.borrow().fail_kind;
+            return Err(dev_error(k, "injected: timeout refused"));
         }
         self.st.borrow_mut().timeout = Some(timeout);
         Ok(())
@@ -622,13 +639,27 @@ pub fn record_c20(a: &Args) -> usize {
                                 }
                                 let st = Rc::new(RefCell::new(PortState::new(prior.clone())));
                                 st.borrow_mut().fail = fail.to_string();
+                                st.borrow_mut().fail_kind = k + ci;
                                 let port = IPort::new(st.clone());
-                                let timeout_ms: u64 = [5000u64, 1, 0, 250, 60_000][k % 5];
-                                out.emit(json!({"e": "setup", "ctor": ctor, "prior": line_json(&prior), "timeout_ms": timeout_ms, "fail": fail}));
+                                // the caller's time-out: ordinary values, zero, sub-millisecond, beyond 2^31 ms, beyond 2^32 s, the maximum
+                                let timeout: Duration = [
+                                    Duration::from_millis(5000),
+                                    Duration::from_millis(1),
+                                    Duration::ZERO,
+                                    Duration::from_micros(250),
+                                    Duration::from_secs(60),
+                                    Duration::from_secs(30 * 24 * 3600),
+                                    Duration::from_millis(2_147_483_648),
+                                    Duration::new(u32::MAX as u64 + 7, 999_999_999),
+                                    Duration::MAX,
+                                    Duration::from_nanos(1),
+                                ][k % 10];
+                                let treq = format!("{}.{:09}", timeout.as_secs(), timeout.subsec_nanos());
+                                out.emit(json!({"e": "setup", "ctor": ctor, "prior": line_json(&prior), "timeout": treq, "fail": fail, "kind": (k + ci) % 6}));
                                 let res = match *ctor {
                                     "configure_port" => {
                                         let mut port = port;
-                                        catch(|| flipdot_serial::configure_port(&mut port, Duration::from_millis(timeout_ms)).is_ok())
+                                        catch(|| flipdot_serial::configure_port(&mut port, timeout).is_ok())
                                     }
                                     "bus" => catch(|| SerialSignBus::try_new(port).is_ok()),
                                     _ => catch(|| flipdot_testing::Odk::try_new(port, flipdot_testing::VirtualSignBus::new(vec![])).is_ok()),
@@ -640,7 +671,7 @@ pub fn record_c20(a: &Args) -> usize {
                                 let any_failed = s.dev_log.iter().any(|e| e["ok"] == false);
                                 out.emit(json!({"e": "setupret", "res": match res { Ok(true) => "ok", Ok(false) => "err", Err(_) => "panic" },
                                                 "final": line_json(&s.line), "timeout_set": s.timeout.is_some(),
-                                                "timeout_ms": s.timeout.map(|d| d.as_millis() as u64).unwrap_or(0), "any_failed": any_failed}));
+                                                "timeout": s.timeout.map(|d| format!("{}.{:09}", d.as_secs(), d.subsec_nanos())).unwrap_or_default(), "any_failed": any_failed}));
                             }
                             k += 1;
                         }
